@@ -158,8 +158,9 @@ def plot_cyclepoints_array(sig, fs, peaks=None, troughs=None, rises=None, decays
         if points is not None:
 
             # Limit times and shift indices of cyclepoints (cps)
-            cps = points[(points >= times[0]*fs) & (points < times[-1]*fs)]
-            cps = cps - int(times[0]*fs)
+            first = int(np.round(times[0]*fs))
+            cps = points[(points >= first) & (points <= first + len(times) - 1)]
+            cps = cps - first
 
             y_values.append(sig[cps])
             x_values.append(times[cps])
